@@ -59,7 +59,7 @@ func makeScenarios(c *core.Ctx, n int) []Scenario {
 		sc := Scenario{
 			ID: i, Seed: c.Seed*1_000_003 + int64(i), Engine: eng,
 			Workers: 3 + c.Rand.Intn(6), Ops: 4 + c.Rand.Intn(14), Late: 2,
-			Prepop: 1100 + c.Rand.Intn(900), Perturb: c.Rand.Intn(3), WatchdogS: 150,
+			Prepop: 1100 + c.Rand.Intn(900), Perturb: c.Rand.Intn(3), WatchdogS: 90,
 		}
 		if eng == "ud" {
 			sc.Prepop = 1100 + c.Rand.Intn(200)
@@ -143,6 +143,8 @@ type agg struct {
 	hangs    []*Result
 	machine  []string
 	resCount map[string]int
+	stop     bool // a hang candidate was seen: do not start further scenarios (they would mostly hang too)
+	skipped  int
 }
 
 // runAll distributes scenarios over parallel children; scenarios a child did
@@ -170,6 +172,14 @@ func runAll(c *core.Ctx, bin string, scs []Scenario, par, chunk int, a *agg) {
 		go func() {
 			defer wg.Done()
 			for job := range queue {
+				a.mu.Lock()
+				if a.stop {
+					a.skipped += len(job)
+					a.mu.Unlock()
+					pending.Done()
+					continue
+				}
+				a.mu.Unlock()
 				to := time.Duration(len(job))*200*time.Second + 2*time.Minute
 				co := runChild(c, bin, job, to)
 				a.mu.Lock()
@@ -177,6 +187,7 @@ func runAll(c *core.Ctx, bin string, scs []Scenario, par, chunk int, a *agg) {
 					a.results = append(a.results, r)
 					if r.Hang != nil {
 						a.hangs = append(a.hangs, r)
+						a.stop = true
 					}
 					if r.Err != "" {
 						a.machine = append(a.machine, fmt.Sprintf("scenario %d: %s", r.Scenario.ID, r.Err))
@@ -364,10 +375,15 @@ func run(c *core.Ctx) error {
 	c.Assume("data-race freedom is exploration-level evidence (race detector on executed schedules), not part of the model")
 
 	// ---------------- 1. the model decides (in parallel with the stress)
+	// VERIF_C11_DEV=stress is a development aid (mutant trials): only the stress + trace validation
+	devStress := os.Getenv("VERIF_C11_DEV") == "stress"
 	var modelWG sync.WaitGroup
 	modelWG.Add(1)
 	go func() {
 		defer modelWG.Done()
+		if devStress {
+			return
+		}
 		jobs := []modelJob{
 			{"Proto", "Proto_mc_quick.cfg", 6, 30 * time.Minute},
 			{"Proto", "Proto_live_quick.cfg", 2, 30 * time.Minute},
@@ -390,6 +406,16 @@ func run(c *core.Ctx) error {
 	scs := makeScenarios(c, nSc)
 	a := &agg{resCount: map[string]int{}}
 	t0 := time.Now()
+	// ---------------- 3. hazards the model exhibits, re-enacted on the real code (concurrently)
+	var hzWG sync.WaitGroup
+	hzWG.Add(1)
+	go func() {
+		defer hzWG.Done()
+		if !devStress {
+			runHazards(c, self)
+		}
+	}()
+
 	runAll(c, self, scs, c.Pick(5, 6), c.Pick(4, 10), a)
 	c.Logf("stress: %d scenarios in %.1fs", len(a.results), time.Since(t0).Seconds())
 
@@ -397,9 +423,8 @@ func run(c *core.Ctx) error {
 	for _, hr := range a.hangs {
 		confirmHang(c, self, hr, "")
 	}
-
-	// ---------------- 3. hazards the model exhibits, re-enacted on the real code
-	runHazards(c, self)
+	hzWG.Wait()
+	c.Logf("hazards done at %.1fs", time.Since(t0).Seconds())
 
 	// ---------------- 4. TLC judges the recorded traces
 	sort.Slice(a.results, func(i, j int) bool { return a.results[i].Scenario.ID < a.results[j].Scenario.ID })
@@ -472,9 +497,14 @@ func run(c *core.Ctx) error {
 	if err != nil {
 		return err
 	}
+	c.Logf("trace validation done at %.1fs", time.Since(t0).Seconds())
 
 	// ---------------- 5. race detector (exploration)
-	runRace(c)
+	if !devStress {
+		runRace(c)
+	} else {
+		c.Inconclusive("VERIF_C11_DEV=stress: model, hazards and race detector skipped (development run)")
+	}
 
 	modelWG.Wait()
 
@@ -483,6 +513,9 @@ func run(c *core.Ctx) error {
 		c.Inconclusive("stress machinery: " + strings.Join(a.machine[:min(3, len(a.machine))], " | "))
 	}
 	c.Extra("scenarios", len(a.results))
+	if a.skipped > 0 {
+		c.Extra("scenarios_not_run_after_hang", a.skipped)
+	}
 	c.Extra("api_calls_judged", a.calls)
 	c.Extra("results_by_op", a.resCount)
 	var maxLat int64
@@ -581,6 +614,8 @@ func runHazards(c *core.Ctx, bin string) {
 		{"close2", "Proto_hz_close2.cfg", "NoPanic", []string{"panic"}, "disk", "second-close-panics-close-of-closed-channel"},
 		{"fmmem", "Proto_hz_fmmem.cfg", "<deadlock>", []string{"fm_wait"}, "mem", "forcemerge-without-merger-loop-never-returns"},
 	}
+	var wg sync.WaitGroup
+	defer wg.Wait()
 	for i, h := range hzs {
 		acts, ok := hazardModel(c, h.cfg, h.want, h.pcs)
 		if !ok {
@@ -588,45 +623,52 @@ func runHazards(c *core.Ctx, bin string) {
 		}
 		engines := []string{h.engine}
 		if h.name == "fd" {
-			engines = []string{"disk", "mem", "ud"}
+			engines = []string{"disk", "ud"}
 		}
 		if h.name == "close2" {
-			engines = []string{"disk", "mem"}
+			engines = []string{"disk", "mem", "ud"}
 		}
 		for j, eng := range engines {
-			sc := Scenario{ID: 9000 + 10*i + j, Seed: c.Seed, Engine: eng, Workers: 2, Prepop: 50, Hazard: h.name, WatchdogS: 25}
-			co := runChild(c, bin, []Scenario{sc}, 10*time.Minute)
-			if co.err != nil || len(co.results) != 1 || co.results[0].Err != "" {
-				c.Inconclusive(fmt.Sprintf("hazard %s/%s: child failed: %v %s", h.name, eng, co.err, tail(co.stderr, 800)))
-				continue
-			}
-			r := co.results[0]
-			c.Eval(1)
-			c.Extra("hazard_"+h.name+"_"+eng+"_model_schedule", acts)
-			if r.Hang != nil {
-				confirmHang(c, bin, r, h.sig+":"+engClass(eng))
-				continue
-			}
-			tf, err := c.ValidateTrace("TraceProto", "TraceProto.cfg", eventsAny(r.Events))
-			if err != nil {
-				c.Inconclusive("TraceProto on hazard trace: " + err.Error())
-				continue
-			}
-			c.Traces(1)
-			if tf == nil {
-				c.Logf("hazard %s on %s: the real code does not exhibit it (trace accepted)", h.name, eng)
-				c.Extra("hazard_"+h.name+"_"+eng, "not exhibited by the real code")
-				continue
-			}
-			k := tf.Line - 2
-			ev := Event{}
-			if k >= 0 && k < len(r.Events) {
-				ev = r.Events[k]
-			}
-			c.Violation(h.sig+":"+engClass(eng),
-				fmt.Sprintf("hazard %s on the real code (%s): TLC (TraceProto) rejects the run, invariant %s at op=%s res=%s; schedule from TLC counterexample of %s: %v",
-					h.name, eng, tf.Invariant, ev.Op, ev.Res, h.cfg, acts),
-				map[string]any{"scenario": sc, "panics": r.Panics, "model_schedule": acts})
+			i, j, h, eng := i, j, h, eng
+			wg.Add(1)
+			go func() {
+				defer wg.Done()
+				// the handshake on goroutine states puts the run into the model's final state within
+				// milliseconds; the watchdog only bounds how long the blocked state is then observed
+				sc := Scenario{ID: 9000 + 10*i + j, Seed: c.Seed, Engine: eng, Workers: 2, Prepop: 50, Hazard: h.name, WatchdogS: 12}
+				co := runChild(c, bin, []Scenario{sc}, 10*time.Minute)
+				if co.err != nil || len(co.results) != 1 || co.results[0].Err != "" {
+					c.Inconclusive(fmt.Sprintf("hazard %s/%s: child failed: %v %s", h.name, eng, co.err, tail(co.stderr, 800)))
+					return
+				}
+				r := co.results[0]
+				c.Eval(1)
+				c.Extra("hazard_"+h.name+"_"+eng+"_model_schedule", acts)
+				if r.Hang != nil {
+					confirmHang(c, bin, r, h.sig+":"+engClass(eng))
+					return
+				}
+				tf, err := c.ValidateTrace("TraceProto", "TraceProto.cfg", eventsAny(r.Events))
+				if err != nil {
+					c.Inconclusive("TraceProto on hazard trace: " + err.Error())
+					return
+				}
+				c.Traces(1)
+				if tf == nil {
+					c.Logf("hazard %s on %s: the real code does not exhibit it (trace accepted)", h.name, eng)
+					c.Extra("hazard_"+h.name+"_"+eng, "not exhibited by the real code")
+					return
+				}
+				k := tf.Line - 2
+				ev := Event{}
+				if k >= 0 && k < len(r.Events) {
+					ev = r.Events[k]
+				}
+				c.Violation(h.sig+":"+engClass(eng),
+					fmt.Sprintf("hazard %s on the real code (%s): TLC (TraceProto) rejects the run, invariant %s at op=%s res=%s; schedule from TLC counterexample of %s: %v",
+						h.name, eng, tf.Invariant, ev.Op, ev.Res, h.cfg, acts),
+					map[string]any{"scenario": sc, "panics": r.Panics, "model_schedule": acts})
+			}()
 		}
 	}
 }
